@@ -493,4 +493,18 @@ def patch_time(world: SimWorld):
     import circuitpython_nrf24l01.rf24_mesh as m4
 
     for m in (m1, m2, m3, m4):
+        if not hasattr(m, "_verif_real_time"):
+            m._verif_real_time = m.time
         m.time = fake
+
+
+def unpatch_time():
+    """give the library modules their real `time` back (other harnesses in the same process use it)"""
+    import circuitpython_nrf24l01.rf24 as m1
+    import circuitpython_nrf24l01.rf24_lite as m2
+    import circuitpython_nrf24l01.network.mixins as m3
+    import circuitpython_nrf24l01.rf24_mesh as m4
+
+    for m in (m1, m2, m3, m4):
+        if hasattr(m, "_verif_real_time"):
+            m.time = m._verif_real_time
